@@ -5,7 +5,7 @@ from __future__ import annotations
 from .. import nf
 from .. import tdomain as TD
 from .. import terms as T
-from ..harness import API, SOLVERS, A, Rec, Session, call, mcalls, method, where_of
+from ..harness import API, SOLVERS, A, Rec, Session, call, mcalls, method, named, where_of
 from ..model import AnalysisError
 from ..tscen import STRATEGIES, make_solver, posterior_types, typed_solution
 
@@ -113,15 +113,15 @@ def run(chk, S: Session):
                 # linearisations: all at time t+dt
                 for ln in lins:
                     r1.require(nf.equal(ln.kwargs.get("t"), t1), f"{name} linearisation time", "linearised at t = state.t + dt", f"linearised at t = {T.show(ln.kwargs.get('t'))}; the predicted variable lives at state.t + dt", where_of(ln, where), cfg)
-                    tl = env.of(ln.args[2]) if len(ln.args) > 2 else None
+                    tl = env.of(named(ln, "rv")) if named(ln, "rv") is not None else None
                     r1.require(tl is not None and TD.same(tl[1], t1), f"{name} linearisation point time", f"linearisation point is {TD.show_type(tl)}", f"linearisation point has type {TD.show_type(tl)}", where_of(ln, where), cfg)
                     r1.require(ln.kwargs.get("damp") is damp, f"{name} damping forwarded", "", f"damp = {T.show(ln.kwargs.get('damp'))}", where, cfg)
                 is_dynamic = any(tr.kwargs.get("output_scale") is not None and not is_unit_scale(tr.kwargs.get("output_scale")) for tr in trs)
                 if not is_dynamic:
-                    r1.require(len(lins) == 1 and lins[0].args[2] is u_pred and fx_used is T.mk("getitem", (lins[0], 0)), f"{name} linearise at the prediction", "one linearisation, at the predicted variable, used by the update",
+                    r1.require(len(lins) == 1 and named(lins[0], "rv") is u_pred and fx_used is T.mk("getitem", (lins[0], 0)), f"{name} linearise at the prediction", "one linearisation, at the predicted variable, used by the update",
                                f"{len(lins)} linearisations; update uses {T.show(fx_used, 3)}", where, cfg)
                     r1.require(is_unit_scale(pred_scale), f"{name} unit output scale", "prediction uses a unit output scale", f"output scale {T.show(pred_scale, 3)}", where, cfg)
-                    st_arg = lins[0].args[3] if lins and len(lins[0].args) > 3 else (lins[0].kwargs.get("state") if lins else None)
+                    st_arg = named(lins[0], "state") if lins else None
                     aux = state.fields["auxiliary"]
                     ok_state = st_arg is aux or (isinstance(st_arg, T.Term) and st_arg.op == "getitem" and st_arg.args[0] is aux and st_arg.args[1] == 0)
                     r1.require(ok_state, f"{name} linearisation state", "constraint state taken from state.auxiliary", f"state argument {T.show(st_arg, 3)}", where, cfg)
@@ -137,12 +137,12 @@ def run(chk, S: Session):
                             u_mean = obs.args[2]
                             ok = (u_mean.op == "mcall" and u_mean.args[1] == "apply_flat" and u_mean.args[2] is T.mk("attr", (state.fields["u"], "mean_flat"))
                                   and u_mean.args[0] in trs and is_unit_scale(u_mean.args[0].kwargs.get("output_scale")))
-                            first = next((ln for ln in lins if len(ln.args) > 2 and ln.args[2] is u_mean), None)
+                            first = next((ln for ln in lins if named(ln, "rv") is u_mean), None)
                             ok = ok and first is not None and obs.args[0] is T.mk("getitem", (first, 0)) and is_zero_data(scale.args[2], obs.args[0])
                     r1.require(ok, f"{name} dynamic scale", "scale = fx.marginalise(transition(1).apply_flat(mean)).residual_whitened_rms(0), fx linearised at that extrapolation", f"scale = {T.show(scale, 5)}", where_of(scale, where), cfg)
                     r1.require(out.fields["output_scale"] is pred_scale, f"{name} reported scale", "reported output scale = the scale used in the prediction", f"{T.show(out.fields['output_scale'], 3)}", where, cfg)
                     if relin:
-                        second = next((ln for ln in lins if len(ln.args) > 2 and ln.args[2] is u_pred), None)
+                        second = next((ln for ln in lins if named(ln, "rv") is u_pred), None)
                         r1.require(second is not None and fx_used is T.mk("getitem", (second, 0)), f"{name} re-linearised update", "the update uses the linearisation at the calibrated prediction", f"update uses {T.show(fx_used, 3)}", where, cfg)
                         r1.require(len(lins) == 2, f"{name} two linearisations", "", f"{len(lins)}", where, cfg)
                     else:
@@ -193,7 +193,7 @@ def init_rules(chk, S, r2, subs):
                 if with_init:
                     lins = mcalls(out, "linearize", A("constraint_init"))
                     bayes = [m for m in T.subterms(out.fields["u"]) if m.op == "mcall" and m.args[1].startswith("bayes_rule")]
-                    ok = len(lins) == 1 and lins[0].args[2] is u0 and lins[0].kwargs.get("t") is t0 and len(bayes) == 1
+                    ok = len(lins) == 1 and named(lins[0], "rv") is u0 and named(lins[0], "t") is t0 and len(bayes) == 1
                     if ok:
                         b = bayes[0]
                         ok = b.args[0] is T.mk("getitem", (lins[0], 0)) and b.args[3] is u0 and is_zero_data(b.args[2], b.args[0]) and getattr(b.kwargs.get("solve_triu"), "name", "") == "linalg.lstsq_svd"
